@@ -31,7 +31,8 @@ TRUSTED_BASE = ["Coq 8.16.1 kernel + vm_compute", "functional_extensionality_dep
                 "harness/fake_redis: stand-in for redis-py AND the Redis server, written from the command reference, incl. an interpreter for the Lua subset of the three scripts; "
                 "its fidelity to a real server is trusted (none is available offline)",
                 "int(expire * 1000) is computed by the harness the way the code does and handed to the model as the TTL in ms"]
-ASSUMPTIONS = ["keys of different value kinds are disjoint in generated histories (the model answers WRONGTYPE like the stand-in, but the reference is stated for well-typed use)",
+ASSUMPTIONS = ["is_locked(wait, step) is judged at the instant it returns (the model's exists there; C19_is_locked_wait ties the polling loop to that answer for a server nobody else writes to) and by the time it took; its individual polls are not observed",
+               "keys of different value kinds are disjoint in generated histories (the model answers WRONGTYPE like the stand-in, but the reference is stated for well-typed use)",
                "the server goes down / comes back between commands, not between two server calls of one command",
                "SPOP returns the smallest members (the server may return any)"]
 EXHAUSTIVE = {"quick": False, "thorough": False}
